@@ -34,9 +34,9 @@ def _tasks(P, kinds, optmask, **kw):
     out = []
     for i, k in enumerate(kinds):
         if k == "var":
-            out.append(make_task(P, "ABCD"[i], "var", optional=optmask[i], vmin=True, vmax=True, **kw))
+            out.append(make_task(P, "ABCDEFG"[i], "var", optional=optmask[i], vmin=True, vmax=True, **kw))
         else:
-            out.append(make_task(P, "ABCD"[i], k, optional=optmask[i], **kw))
+            out.append(make_task(P, "ABCDEFG"[i], k, optional=optmask[i], **kw))
     return out
 
 
